@@ -32,6 +32,8 @@ class Spec:
     expect_reject: bool = False       # generator must reject this grammar (guard probes)
     leftrec_unwind: dict = field(default_factory=dict)   # rule -> recursion bound
     note: str = ""
+    optional_covers: list = field(default_factory=list)
+    heavy: bool = False
 
 
 def input_prelude(spec: Spec, fixed_len):
@@ -79,12 +81,13 @@ def harness_body(spec: Spec, fname, fixed_len):
         lines.append("    }")
     for cond, msg in spec.extra_checks:
         lines.append(f'    vcheck!(src, {cond}, "{msg}");')
+    lines.append('    vcover!(src, true, "harness reaches the end of its assertions");')
     lines.append("}")
     return "\n".join(lines) + "\n"
 
 
 def default_unwind(spec):
-    return spec.unwind or (spec.n + 3)
+    return spec.unwind or (spec.n + 2)
 
 
 def build(spec: Spec):
@@ -99,7 +102,7 @@ def build(spec: Spec):
     if not res[0]:
         return None, [], info
     info["generated_sha"] = hashlib.sha256(open(dst, "rb").read()).hexdigest()[:16]
-    ref = refgen.RefEmitter(spec.grammar, "crate::g", nn=spec.nn, ne=spec.ne).module("rf_g")
+    ref = refgen.RefEmitter(spec.grammar, "crate::g", nn=spec.nn, ne=spec.ne, track_nodes=spec.tree).module("rf_g")
     entries = []
     bodies = []
     u = default_unwind(spec)
@@ -107,7 +110,7 @@ def build(spec: Spec):
         for l in range(spec.n + 1):
             fn = f"h_len{l}"
             bodies.append(harness_body(spec, fn, l))
-            entries.append((f"{spec.name}_len{l}", u, f"{fn}(src)"))
+            entries.append((f"{spec.name}_len{l}", (spec.unwind or (l + 2)), f"{fn}(src)"))
     else:
         bodies.append(harness_body(spec, "h_all", None))
         entries.append((f"{spec.name}_all", u, "h_all(src)"))
@@ -132,5 +135,9 @@ def jobs_for(spec: Spec, timeout=900, mem_gb=14, weight=1, required=True, role=N
         jobs.append(kani.Job(jid=h, crate=d, harness=h, desc=(spec.note + " | " if spec.note else "") + f"rule {spec.root} of: " + info["grammar"].replace("\n", " "),
                              bound=bound, timeout=timeout, mem_gb=mem_gb, weight=weight, required=required,
                              meta={"role": role or spec.name, "nbytes": spec.n, "spec": spec.name,
-                                   "generated_sha": info.get("generated_sha")}))
+                                   "generated_sha": info.get("generated_sha"),
+                                   # a family grammar may accept (or reject) every input inside the bound; these two
+                                   # witnesses are informational, "reaches the end" is the mandatory vacuity witness
+                                   "optional_covers": ["reference: input accepted", "reference: input rejected"]
+                                   + list(spec.optional_covers)}))
     return jobs, info
